@@ -2,7 +2,7 @@
 \* other cells: high/low address bytes into the image, small displacements, RTS; optional 2-byte vector at $1001
 CONSTANTS IsaName = "6800" Cpu = "6800" N = 3 Org = 4096 MaxEntries = 2 EntrySpan = 4 AllFirst = FALSE
   FirstBytes = {1, 32, 38, 141, 57, 126, 189, 110, 134, 206, 183, 0}
-  OtherBytes = {16, 0, 1, 2, 254, 57, 32}
+  OtherBytes = {16, 0, 1, 254, 57}
   VecAddrs = {4097}
 SPECIFICATION Spec
 INVARIANTS TerminatesWithin InvInside InvSound InvComplete InvDisjoint InvRoundTrip InvRunAgrees
